@@ -619,6 +619,21 @@ class SymWalker:
             return f_or(f_and(c, self.atomize(t.body, True)), f_and(f_not(c), self.atomize(t.orelse, True)))
         if isinstance(t, ast.Call) and isinstance(t.func, ast.Name) and t.func.id == "bool" and len(t.args) == 1:
             return self.atomize(t.args[0], True)
+        if isinstance(t, ast.Call) and isinstance(t.func, ast.Name) and t.func.id in ("any", "all") and len(t.args) == 1 and not t.keywords \
+                and isinstance(t.args[0], (ast.GeneratorExp, ast.ListComp)) and len(t.args[0].generators) == 1 and not t.args[0].generators[0].ifs:
+            # all(P) == not any(not P): one canonical atom, the body as a truth table over its own atoms
+            g = t.args[0].generators[0]
+            saved = self.leaf
+            self.leaf = lambda e, txt: ("op", txt)
+            try:
+                body = self.atomize(t.args[0].elt, True)
+            finally:
+                self.leaf = saved
+            if t.func.id == "all":
+                body = f_not(body)
+            txt = "any{%s for %s in %s}" % (_truth_table_text(body), norm(g.target), norm(g.iter))
+            atom = self.leaf(t, txt)
+            return atom if t.func.id == "any" else f_not(atom)
         if isinstance(t, ast.Constant):
             return True if t.value else False
         if isinstance(t, ast.Compare):
@@ -1675,6 +1690,22 @@ def _rename(e, ren):
 def _tokens(t):
     import re
     return re.findall(r"[A-Za-z_][A-Za-z_0-9]*|\d+|[^\sA-Za-z_0-9]", t)
+
+
+def _truth_table_text(f):
+    """canonical text of a propositional formula: its atoms in sorted order and its truth table"""
+    if f is True or f is False:
+        return str(f)
+    ops = sorted(set(gi.f_opaques(f)))
+    if len(ops) > 8:
+        from .ct import fmt_formula
+        return fmt_formula(_sort_formula(f))
+    import itertools
+    bits = 0
+    for i, vals in enumerate(itertools.product((False, True), repeat=len(ops))):
+        if not gi.f_eval(f, dict(zip(ops, vals)), gi.IntSet.all(), gi.IntSet.empty()).is_empty():
+            bits |= 1 << i
+    return "%s#%x" % ("; ".join(ops), bits)
 
 
 def _bitparallel(fs):
